@@ -358,8 +358,50 @@ fn s_gate() -> Result<(), String> {
     Ok(())
 }
 
+/// string accounting through updates: setting a cell to the value it already holds, to a new value and
+/// back, then deleting every row, must leave no text of those rows in the saved string data
+fn s_update_accounting() -> Result<(), String> {
+    use crate::internal::streamname;
+    let m = Medium::new();
+    let mut p = Package::create(PackageType::Installer, m.clone()).map_err(|e| e.to_string())?;
+    p.create_table("T", cols()).map_err(|e| e.to_string())?;
+    p.insert_rows(Insert::into("T").rows(vec![
+        vec![Value::Int(1), Value::from("SecretAlpha")],
+        vec![Value::Int(2), Value::from("SecretBeta")],
+        vec![Value::Int(3), Value::from("SecretBeta")],
+    ]))
+    .map_err(|e| e.to_string())?;
+    p.update_rows(Update::table("T").set("S", Value::from("SecretBeta")).with(Expr::col("K").eq(Expr::integer(2)))).map_err(|e| e.to_string())?;
+    p.update_rows(Update::table("T").set("S", Value::from("SecretGamma")).with(Expr::col("K").eq(Expr::integer(1)))).map_err(|e| e.to_string())?;
+    p.update_rows(Update::table("T").set("S", Value::from("SecretBeta"))).map_err(|e| e.to_string())?;
+    // a table whose FIRST column is a string, and a string in the last column
+    p.create_table("U", vec![Column::build("A").primary_key().string(0), Column::build("N").nullable().int16(), Column::build("Z").nullable().string(0)])
+        .map_err(|e| e.to_string())?;
+    p.insert_rows(Insert::into("U").rows(vec![
+        vec![Value::from("SecretKeyOne"), Value::Int(1), Value::from("SecretTail")],
+        vec![Value::from("SecretKeyTwo"), Value::Null, Value::from("SecretTail")],
+    ]))
+    .map_err(|e| e.to_string())?;
+    p.flush().map_err(|e| e.to_string())?;
+    p.delete_rows(Delete::from("U").with(Expr::col("N").eq(Expr::integer(1)))).map_err(|e| e.to_string())?;
+    p.delete_rows(Delete::from("T")).map_err(|e| e.to_string())?;
+    p.delete_rows(Delete::from("U")).map_err(|e| e.to_string())?;
+    p.into_inner().map_err(|e| e.to_string())?;
+    let mut comp = cfb::CompoundFile::open(Cursor::new(m.snapshot())).map_err(|e| e.to_string())?;
+    let mut data = Vec::new();
+    comp.open_stream(streamname::encode("_StringData", true)).map_err(|e| e.to_string())?.read_to_end(&mut data).map_err(|e| e.to_string())?;
+    let hay = String::from_utf8_lossy(&data).to_string();
+    for needle in ["SecretAlpha", "SecretBeta", "SecretGamma", "SecretKeyOne", "SecretKeyTwo", "SecretTail"] {
+        if hay.contains(needle) {
+            return Err(format!("text {:?} of deleted rows is still in the saved string data (a reference was leaked)", needle));
+        }
+    }
+    Ok(())
+}
+
 #[test]
 fn replay_protocol() {
+    report("update_accounting", s_update_accounting());
     report("gate", s_gate());
     report("streams", s_streams());
     report("summary_after_table_flush", s_summary_after_table(0));
